@@ -1,6 +1,8 @@
 package eng
 
 import (
+	coraza "github.com/corazawaf/coraza/v3"
+
 	"encoding/json"
 	"fmt"
 	"runtime"
@@ -33,6 +35,8 @@ type FamilyOpts struct {
 	Check func(g *Group, obs *Observed) (kind string, detail string)
 	// Runs is how many times each scenario is driven (default 1).
 	Runs int
+	// SameWAF: the runs of a scenario share one compiled WAF (consecutive transactions)
+	SameWAF bool
 	// RunOpts lets a family install hooks per run index.
 	RunOptsFor func(g *Group, run int) RunOpts
 	// After is called with every group and its observations (for cross-run checks).
@@ -189,10 +193,20 @@ func ReplayFamily(run *vf.Run, fo FamilyOpts) int {
 				defer wg.Done()
 				defer func() { <-sem }()
 				var all []Observed
+				var shared coraza.WAF
+				if fo.SameWAF {
+					if w, err, p := Compile(g.Text); err == nil && p == "" {
+						shared = w
+						defer closeWAF(w)
+					}
+				}
 				for ri := 0; ri < runs; ri++ {
 					var ro RunOpts
 					if fo.RunOptsFor != nil {
 						ro = fo.RunOptsFor(g, ri)
+					}
+					if shared != nil {
+						ro.WAF = shared
 					}
 					obs := Run(&g.Scen, ro)
 					all = append(all, obs)
